@@ -190,6 +190,12 @@ class Bounds:
             return self._norm_arg(e.value)
         if isinstance(e, ast.Call) and _last(attr_chain(e.func)) == "norm" and e.args:
             return ast.unparse(e.args[0])
+        if isinstance(e, ast.Call) and _last(attr_chain(e.func)) in ("max", "maximum", "fmax") and len(e.args) == 2:
+            # a floor under the norm (max(norm(x), tiny)): the norm itself for every non-degenerate x
+            for a in e.args:
+                got = self._norm_arg(a)
+                if got is not None:
+                    return got
         if isinstance(e, ast.Name):
             vs = self.assigns.get(e.id, [])
             if len(vs) == 1:
